@@ -141,7 +141,7 @@ func c07StillTransient(r *hx.Result, ans, where string, replay map[string]interf
 // ------------------------------------------------------------------ primary
 
 type c07Prim struct {
-	st     *store.ImmuStore
+	st     *c07Store // every call under the liveness bound (c07live.go)
 	dir    string
 	n      uint64
 	ver    int
@@ -154,10 +154,13 @@ type c07Prim struct {
 	maxVal int
 	maxKey int
 	maxEnt int
+	clock  int64 // the primary's clock after the last tx
 	poison bool // ExportTx hit the "partially truncated" exit (leaves _valBsMux locked: do not export again)
 }
 
 type c07PrimSpec struct {
+	small     bool  // small store limits (value/key length, entries per tx)
+	clock0    int64 // first value of the primary's clock (a forked history starts after its base's)
 	n         int
 	ver       int
 	embedded  bool
@@ -170,9 +173,48 @@ func c07Ts(k *int64) store.TimeFunc {
 }
 
 func c07BuildPrimary(r *hx.Result, rng *hx.Rng, sp c07PrimSpec) (*c07Prim, error) {
+	return c07BuildLineage(r, rng, sp, nil, 0)
+}
+
+// c07BuildLineage builds a primary history. With base != nil the history FORKS from base: transactions 1..fork are
+// base's (replicated from its exports, so ids, headers and Alhs are identical), fork+1..sp.n are new ones — what a
+// promoted replica writes after a primary change. The whole build runs under one watchdog (its counters are merged
+// afterwards: the builder goroutine never touches the Result).
+func c07BuildLineage(r *hx.Result, rng *hx.Rng, sp c07PrimSpec, base *c07Prim, fork uint64) (*c07Prim, error) {
+	type res struct {
+		p   *c07Prim
+		err error
+	}
+	var counts []string
+	c07T("build primary history n=%d fork=%d", sp.n, fork)
+	ch := make(chan res, 1)
+	go func() {
+		p, err := c07BuildLineageInner(func(k string) { counts = append(counts, k) }, rng, sp, base, fork)
+		ch <- res{p, err}
+	}()
+	select {
+	case v := <-ch:
+		for _, k := range counts {
+			r.Count(k)
+		}
+		if v.p != nil && v.p.st != nil {
+			v.p.st.r = r
+		}
+		return v.p, v.err
+	case <-time.After(4 * c07Bound()):
+		c07ReportHang(r, "primary-build", "")
+		panic(c07Hang{"primary-build"})
+	}
+}
+
+func c07BuildLineageInner(count func(string), rng *hx.Rng, sp c07PrimSpec, base *c07Prim, fork uint64) (*c07Prim, error) {
 	dir := hx.TempDir("c07p")
 	p := &c07Prim{dir: dir, ver: sp.ver, keys: map[string]bool{}, maxVal: 4096, maxKey: 256, maxEnt: 512}
-	var clock int64
+	if sp.small {
+		// small limits: stores with these options open fast (the tx pool is pre-allocated from them)
+		p.maxVal, p.maxKey, p.maxEnt = 256, 48, 8
+	}
+	clock := sp.clock0
 	opts := store.DefaultOptions().WithSynced(false).WithMaxConcurrency(2).WithWriteTxHeaderVersion(sp.ver).
 		WithLogger(quietLogger()).WithTimeFunc(c07Ts(&clock)).WithMaxValueLen(p.maxVal).WithMaxKeyLen(p.maxKey).WithMaxTxEntries(p.maxEnt)
 	if sp.truncate {
@@ -185,7 +227,7 @@ func c07BuildPrimary(r *hx.Result, rng *hx.Rng, sp c07PrimSpec) (*c07Prim, error
 		os.RemoveAll(dir)
 		return nil, err
 	}
-	p.st = st
+	p.st = c07Wrap(nil, st) // the Result is attached by c07BuildLineage once the build is over
 	p.label = fmt.Sprintf("v%d", sp.ver)
 	if sp.embedded && !sp.truncate {
 		p.label += "-embedded"
@@ -194,8 +236,19 @@ func c07BuildPrimary(r *hx.Result, rng *hx.Rng, sp c07PrimSpec) (*c07Prim, error
 		p.label += "-truncated"
 	}
 	ctx := context.Background()
+	if base != nil {
+		for id := uint64(1); id <= fork; id++ {
+			if _, err := st.ReplicateTx(ctx, base.exp[id], false, false); err != nil {
+				return p, fmt.Errorf("fork: ReplicateTx(%d) of the base history: %w", id, err)
+			}
+		}
+		for k := range base.keys {
+			p.keys[k] = true
+		}
+		p.label += fmt.Sprintf("-fork@%d", fork)
+	}
 	pool := [][]byte{[]byte("a"), []byte("key-b"), []byte("kc"), bytes.Repeat([]byte("K"), p.maxKey), []byte{0}, []byte{0xff, 0x00}}
-	for k := 1; k <= sp.n; k++ {
+	for k := int(fork) + 1; k <= sp.n; k++ {
 		tx, err := st.NewWriteOnlyTx(ctx)
 		if err != nil {
 			return p, err
@@ -203,7 +256,7 @@ func c07BuildPrimary(r *hx.Result, rng *hx.Rng, sp c07PrimSpec) (*c07Prim, error
 		ne := 1 + rng.Intn(4)
 		if sp.manyEvery > 0 && k%sp.manyEvery == 0 {
 			ne = 20 + rng.Size(p.maxEnt-20)
-			r.Count("primary.tx.many-entries")
+			count("primary.tx.many-entries")
 		}
 		if sp.truncate {
 			ne = 1 + rng.Intn(2)
@@ -235,7 +288,7 @@ func c07BuildPrimary(r *hx.Result, rng *hx.Rng, sp c07PrimSpec) (*c07Prim, error
 					md.ExpiresAt(time.Unix(int64(1_900_000_000+rng.Intn(1000)), 0))
 					md.AsNonIndexable(rng.Bool())
 				}
-				r.Count("primary.entry.kvmd")
+				count("primary.entry.kvmd")
 			}
 			var val []byte
 			switch {
@@ -243,11 +296,11 @@ func c07BuildPrimary(r *hx.Result, rng *hx.Rng, sp c07PrimSpec) (*c07Prim, error
 				val = rng.Bytes(150 + rng.Intn(500))
 			case rng.Chance(15):
 				val = nil
-				r.Count("primary.entry.empty-value")
+				count("primary.entry.empty-value")
 			default:
 				val = rng.Bytes(rng.Size(120))
 				if len(val) == 0 {
-					r.Count("primary.entry.empty-value")
+					count("primary.entry.empty-value")
 				}
 			}
 			if err := tx.Set(key, md, val); err != nil {
@@ -264,7 +317,7 @@ func c07BuildPrimary(r *hx.Result, rng *hx.Rng, sp c07PrimSpec) (*c07Prim, error
 				md.WithTruncatedTxID(uint64(1 + rng.Intn(k)))
 			}
 			tx.WithMetadata(md)
-			r.Count("primary.tx.metadata")
+			count("primary.tx.metadata")
 		}
 		if _, err := tx.Commit(ctx); err != nil {
 			return p, fmt.Errorf("primary Commit: %w", err)
@@ -276,7 +329,7 @@ func c07BuildPrimary(r *hx.Result, rng *hx.Rng, sp c07PrimSpec) (*c07Prim, error
 		if err := st.TruncateUptoTx(upto); err != nil {
 			return p, fmt.Errorf("TruncateUptoTx(%d): %w", upto, err)
 		}
-		r.Count("primary.truncated-upto")
+		count("primary.truncated-upto")
 	}
 	p.exp = make([][]byte, sp.n+1)
 	p.hdrs = make([]*store.TxHeader, sp.n+1)
@@ -289,7 +342,7 @@ func c07BuildPrimary(r *hx.Result, rng *hx.Rng, sp c07PrimSpec) (*c07Prim, error
 		if err != nil {
 			if strings.Contains(err.Error(), "partially truncated") {
 				p.poison = true
-				r.Count("primary.export.partially-truncated")
+				count("primary.export.partially-truncated")
 				p.n = id - 1
 				break
 			}
@@ -304,12 +357,13 @@ func c07BuildPrimary(r *hx.Result, rng *hx.Rng, sp c07PrimSpec) (*c07Prim, error
 		p.alhs[id] = h.Alh()
 		p.trunc[id] = len(b) > 0 && b[len(b)-1] == 1
 		if p.trunc[id] {
-			r.Count("primary.export.by-digest")
+			count("primary.export.by-digest")
 		} else {
-			r.Count("primary.export.with-values")
+			count("primary.export.with-values")
 		}
 	}
-	r.Count("primary.history." + p.label)
+	count("primary.history." + p.label)
+	p.clock = clock
 	return p, nil
 }
 
@@ -326,7 +380,7 @@ type c07Rep struct {
 	r         *hx.Result
 	name      string
 	dir       string
-	st        *store.ImmuStore
+	st        *c07Store // every call under the liveness bound (c07live.go)
 	synced    bool
 	ext       bool
 	maxActive int
@@ -363,7 +417,7 @@ func c07OpenReplica(r *hx.Result, p *c07Prim, synced, ext bool, maxActive int) (
 	c07NameSeq++
 	rp := &c07Rep{r: r, name: fmt.Sprintf("r%d", c07NameSeq), dir: hx.TempDir("c07r"), synced: synced, ext: ext, maxActive: maxActive,
 		maxKey: p.maxKey, maxVal: p.maxVal, maxEnt: p.maxEnt, stripped: map[uint64]bool{}, maxConc: c07NextMaxConc}
-	st, err := store.Open(filepath.Join(rp.dir, "r"), rp.options())
+	st, err := c07OpenStore(r, filepath.Join(rp.dir, "r"), rp.options())
 	if err != nil {
 		os.RemoveAll(rp.dir)
 		return nil, err
@@ -421,7 +475,8 @@ func (rp *c07Rep) replicateRaw(b []byte, skip bool, timeout time.Duration) (out 
 				done <- c07Out{ans: "panic"}
 			}
 		}()
-		h, err, n := c07Retry(func() (*store.TxHeader, error) { return rp.st.ReplicateTx(ctx, b, skip, false) })
+		raw := rp.st.raw // not the watchdog wrapper: this is not the goroutine that owns the Result
+		h, err, n := c07Retry(func() (*store.TxHeader, error) { return raw.ReplicateTx(ctx, b, skip, false) })
 		if err != nil {
 			done <- c07Out{ans: c07Class(err), retries: n}
 			return
@@ -429,8 +484,20 @@ func (rp *c07Rep) replicateRaw(b []byte, skip bool, timeout time.Duration) (out 
 		a := h.Alh()
 		done <- c07Out{ans: fmt.Sprintf("ok %d %s", h.ID, hx.Hex(a[:])), hdr: h, retries: n}
 	}()
+	c07T("ReplicateTx(tx=%d %s skip=%v timeout=%v)", c07HdrID(b), c07Short(hx.Hex(b)), skip, timeout)
+	// liveness: the call ends with its context at the latest; it must be back one bound after that
+	deadline := time.Now().Add(timeout + c07Bound())
+	hang := func() {
+		c07ReportHang(rp.r, "ReplicateTx", fmt.Sprintf(" (its context of %v ended long ago; synced=%v, Sync() called: %q)", timeout, rp.synced, syncedNow))
+		panic(c07Hang{"ReplicateTx"})
+	}
 	if !rp.synced {
-		return <-done, ""
+		select {
+		case o := <-done:
+			return o, ""
+		case <-time.After(time.Until(deadline)):
+			hang()
+		}
 	}
 	for {
 		select {
@@ -440,6 +507,9 @@ func (rp *c07Rep) replicateRaw(b []byte, skip bool, timeout time.Duration) (out 
 		}
 		if syncedNow == "" && rp.st.LastPrecommittedTxID() > pre0 {
 			syncedNow = c07Class(rp.st.Sync())
+		}
+		if time.Now().After(deadline) {
+			hang()
 		}
 		time.Sleep(200 * time.Microsecond)
 	}
@@ -457,11 +527,18 @@ func c07HdrID(b []byte) uint64 {
 func (rp *c07Rep) deliver(b []byte, skip bool) c07Out {
 	pre := rp.st.LastPrecommittedTxID()
 	id := c07HdrID(b)
-	timeout := 30 * time.Second
-	if id > pre+1 && id <= pre+uint64(rp.maxActive) {
+	timeout := c07Bound()
+	mayWait := id > pre+1 && id <= pre+uint64(rp.maxActive)
+	if mayWait {
 		timeout = 25 * time.Millisecond // the call may wait for tx id-1, which nobody delivers
 	}
 	out, syncedNow := rp.replicateRaw(b, skip, timeout)
+	if out.ans == "err:blocked" && !mayWait {
+		// nothing this delivery could legitimately wait for (its predecessor is there, the harness has called Sync()):
+		// it sat in a watermark wait until its context ended
+		c07ReportHang(rp.r, "ReplicateTx", fmt.Sprintf(" (tx %d on top of precommitted %d waited until its context of %v ended; Sync() called: %q)", id, pre, timeout, syncedNow))
+		panic(c07Hang{"ReplicateTx"})
+	}
 	c07CountRetries(rp.r, "sequential", out.retries)
 	if c07StillTransient(rp.r, out.ans, "sequential delivery", map[string]interface{}{"export": hx.Hex(b), "skip": skip}) {
 		return out // the call was never examined by the store: nothing to compare with the model
@@ -501,7 +578,7 @@ func (rp *c07Rep) restart() error {
 	if err := rp.st.Close(); err != nil {
 		return fmt.Errorf("replica close: %w", err)
 	}
-	st, err := store.Open(filepath.Join(rp.dir, "r"), rp.options())
+	st, err := c07OpenStore(rp.r, filepath.Join(rp.dir, "r"), rp.options())
 	if err != nil {
 		rp.st = nil
 		return fmt.Errorf("replica reopen: %w", err)
@@ -677,7 +754,7 @@ func (rp *c07Rep) checkCommitted(p *c07Prim, rng *hx.Rng, upto uint64) {
 	}
 }
 
-func c07Get(st *store.ImmuStore, key []byte, p *c07Prim, isPrimary bool) string {
+func c07Get(st *c07Store, key []byte, p *c07Prim, isPrimary bool) string {
 	ref, err := st.Get(context.Background(), key)
 	if err != nil {
 		switch {
@@ -1325,9 +1402,10 @@ func c07Concurrent(r *hx.Result, rng *hx.Rng, p *c07Prim, ext bool) error {
 					results[i] = res{id, "panic", 0}
 				}
 			}()
-			ctx, cancel := context.WithTimeout(context.Background(), 60*time.Second)
+			ctx, cancel := context.WithTimeout(context.Background(), c07Bound())
 			defer cancel()
-			h, err, n := c07Retry(func() (*store.TxHeader, error) { return rp.st.ReplicateTx(ctx, p.exp[id], false, false) })
+			raw := rp.st.raw // goroutines other than the Result's owner use the store directly, with a context that ends
+			h, err, n := c07Retry(func() (*store.TxHeader, error) { return raw.ReplicateTx(ctx, p.exp[id], false, false) })
 			if err != nil {
 				results[i] = res{id, c07Class(err), results[i].retries + n}
 				return
@@ -1343,7 +1421,11 @@ func c07Concurrent(r *hx.Result, rng *hx.Rng, p *c07Prim, ext bool) error {
 				one(i, id)
 			}(i, id)
 		}
-		wg.Wait()
+		c07T("ReplicateTx x%d concurrently: txs %v", len(ids), ids)
+		if !c07Quiet(2*c07Bound()+c07RetryMax*c07RetrySleep, wg.Wait) {
+			c07ReportHang(r, "ReplicateTx", " (concurrent batch: the calls did not return although their contexts ended)")
+			panic(c07Hang{"ReplicateTx"})
+		}
 		// a delivery that was only ever answered with the transient back-pressure class has not been examined by the
 		// store yet: it is made again now that nothing else is in flight (ascending ids: each finds its predecessor)
 		var again []int
@@ -1416,7 +1498,7 @@ func c07Limits(r *hx.Result, rng *hx.Rng, p *c07Prim) error {
 	c07NameSeq++
 	rp := &c07Rep{r: r, name: fmt.Sprintf("r%d", c07NameSeq), dir: hx.TempDir("c07r"), ext: true, maxActive: 4,
 		maxKey: 8 + rng.Intn(8), maxVal: 20 + rng.Intn(60), maxEnt: 2 + rng.Intn(3), stripped: map[uint64]bool{}}
-	st, err := store.Open(filepath.Join(rp.dir, "r"), rp.options())
+	st, err := c07OpenStore(r, filepath.Join(rp.dir, "r"), rp.options())
 	if err != nil {
 		os.RemoveAll(rp.dir)
 		return err
@@ -1459,7 +1541,7 @@ func c07Durable(r *hx.Result, rng *hx.Rng, p *c07Prim) error {
 		if rng.Chance(50) || id == p.n {
 			cp := hx.TempDir("c07c")
 			if err := copyDir(filepath.Join(rp.dir, "r"), filepath.Join(cp, "r")); err == nil {
-				st2, err := store.Open(filepath.Join(cp, "r"), rp.options())
+				st2, err := c07OpenStore(r, filepath.Join(cp, "r"), rp.options())
 				r.OracleChecks++
 				if err != nil {
 					r.Fail("C07:sync:reported-precommit-not-durable", fmt.Sprintf("copy of the replica directory taken after it reported precommitted=%d does not open: %v", did, err), map[string]interface{}{"primary": p.label})
@@ -1516,16 +1598,29 @@ func runC07(r *hx.Result, rng *hx.Rng, thorough bool, replay string) error {
 				sp.manyEvery = 2 + rng.Intn(5)
 			}
 		}
-		if only := os.Getenv("C07_ONLY"); only == "truncate" && !sp.truncate {
+		if only := os.Getenv("C07_ONLY"); (only == "truncate" && !sp.truncate) || only == "acks" {
 			rng.Fork()
 			continue
 		}
-		p, err := c07BuildPrimary(r, rng.Fork(), sp)
-		if err != nil {
+		var p *c07Prim
+		err, hung := c07Run(r, "build-primary", func() (err error) { p, err = c07BuildPrimary(r, rng.Fork(), sp); return err })
+		if err != nil || hung {
 			if p != nil {
 				p.close()
 			}
+			if hung {
+				continue
+			}
 			return fmt.Errorf("primary: %w", err)
+		}
+		// one scenario = one replica of its own: a call that does not return (liveness bound, c07live.go) is an oracle
+		// failure that abandons the scenario; the next one starts from a fresh replica
+		scn := func(name string, f func() error) error {
+			if c07TooManyHangs() {
+				return nil
+			}
+			err, _ := c07Run(r, name+" primary="+p.label, f)
+			return err
 		}
 		err = func() error {
 			defer p.close()
@@ -1535,33 +1630,33 @@ func runC07(r *hx.Result, rng *hx.Rng, thorough bool, replay string) error {
 			r.Sample(map[string]interface{}{"primary": p.label, "txs": p.n, "first_export": hx.Hex(p.exp[1])[:min(200, 2*len(p.exp[1]))]})
 			c07Lap("primary built " + p.label)
 			small := sp.manyEvery == 0 // the alteration stream re-sends the export many times: keep those histories small
-			if err := c07InOrder(r, rng.Fork(), p, false, false, i%2 == 1); err != nil {
+			if err := scn("in-order", func() error { return c07InOrder(r, rng.Fork(), p, false, false, i%2 == 1) }); err != nil {
 				return err
 			}
 			c07Lap("inorder1")
-			if err := c07InOrder(r, rng.Fork(), p, i%2 == 0, true, false); err != nil {
+			if err := scn("in-order", func() error { return c07InOrder(r, rng.Fork(), p, i%2 == 0, true, false) }); err != nil {
 				return err
 			}
 			c07Lap("inorder2")
 			if small {
 				for w := 0; w < walks; w++ {
-					if err := c07Walk(r, rng.Fork(), p, (i+w)%3 == 0, alter, (i+w)%3); err != nil {
+					if err := scn("walk", func() error { return c07Walk(r, rng.Fork(), p, (i+w)%3 == 0, alter, (i+w)%3) }); err != nil {
 						return err
 					}
 				}
 			}
 			c07Lap("walks")
-			if err := c07Concurrent(r, rng.Fork(), p, i%2 == 0); err != nil {
+			if err := scn("concurrent", func() error { return c07Concurrent(r, rng.Fork(), p, i%2 == 0) }); err != nil {
 				return err
 			}
 			c07Lap("concurrent")
 			if i%2 == 0 {
-				if err := c07Limits(r, rng.Fork(), p); err != nil {
+				if err := scn("limits", func() error { return c07Limits(r, rng.Fork(), p) }); err != nil {
 					return err
 				}
 			}
 			if i%3 == 0 {
-				if err := c07Durable(r, rng.Fork(), p); err != nil {
+				if err := scn("durable-copy", func() error { return c07Durable(r, rng.Fork(), p) }); err != nil {
 					return err
 				}
 			}
@@ -1574,22 +1669,50 @@ func runC07(r *hx.Result, rng *hx.Rng, thorough bool, replay string) error {
 			return err
 		}
 	}
-	if err := c07Probes(r, rng.Fork()); err != nil {
-		return err
+	// acknowledgements only cover durable state: forked histories, a Synced replica on a crash-simulating file system,
+	// precommit / sync / allow / discard / re-replicate / restart / crash in any order (c07ack.go)
+	if !c07TooManyHangs() {
+		// (its own random stream, a function of the seed only: `C07_ONLY=acks` re-runs this part alone)
+		if err := c07Acks(r, hx.NewRng(r.Seed*0x9E3779B97F4A7C15+0xC07AC5), thorough); err != nil {
+			return err
+		}
+		c07Lap("acks")
+		if err := r.Flush(); err != nil {
+			return err
+		}
+	}
+	if os.Getenv("C07_ONLY") == "acks" {
+		return nil
+	}
+	if !c07TooManyHangs() {
+		err, _ := c07Run(r, "probes", func() error { return c07Probes(r, rng.Fork()) })
+		if err != nil {
+			return err
+		}
 	}
 	c07Lap("probes")
 	if err := r.Flush(); err != nil {
 		return err
 	}
-	err := c07DB(r, rng.Fork(), thorough)
-	c07Lap("db")
-	if err != nil {
-		return err
+	if !c07TooManyHangs() {
+		err := c07DB(r, rng.Fork(), thorough)
+		c07Lap("db")
+		if err != nil {
+			return err
+		}
+	}
+	r.Extra["liveness_bound"] = c07Bound().String()
+	r.Extra["hangs"] = c07Hangs
+	if c07Hangs > 0 {
+		// a scenario was abandoned: the distribution below is incomplete, which is not what the failure is about
+		return nil
 	}
 	// a generator whose distribution collapses must not pass silently
 	need := []string{"walk.deliver-next", "walk.discard", "walk.restart", "walk.allow", "concurrent.answer.ok", "concurrent.answer.err:already-committed",
 		"alter.outcome.err:illegal", "primary.export.by-digest", "primary.tx.metadata", "primary.entry.kvmd", "primary.entry.empty-value",
-		"db.set-returned", "db.fetch.ok", "oracle.dualproof-verified", "oracle.queries-compared", "schedule.in-order.synced=true.ext=true.skip=false"}
+		"db.set-returned", "db.fetch.ok", "oracle.dualproof-verified", "oracle.queries-compared", "schedule.in-order.synced=true.ext=true.skip=false",
+		"acks.step.rep", "acks.step.sync", "acks.step.discard", "acks.step.allow", "acks.step.crash", "acks.step.restart", "acks.oracle.crash-image-reopened",
+		"acks.oracle.ack-survives-crash", "acks.replicate-returned"}
 	for _, k := range need {
 		if r.Distribution[k] == 0 {
 			r.Inconclusive = append(r.Inconclusive, "generator never produced "+k)
